@@ -127,6 +127,10 @@ theorem getSlice_rows (t t' : Table α) (a b : Option Int) (c : Int) (h : getSli
   obtain ⟨ks, hk, h2⟩ := bind_ok h
   exact ⟨ks, hk, rowsOf_of_take t t' ks h2⟩
 
+/-- a slice (any start / stop / step ≠ 0, Python semantics) only ever selects rows of the table -/
+theorem slice_rows_in_table (n : Nat) (a b : Option Int) (c : Int) (ks : List Nat)
+    (h : sliceIndices n a b c = .ok ks) : ∀ k ∈ ks, k < n := sliceIndices_lt' n a b c ks h
+
 /-- every operation of the property returns a table with the same units, reference epoch, `poly_trend` and
 `n_offsets` (and column names) -/
 theorem ops_preserve_meta [Field α] [LinearOrder α] (sqrt : α → α) (t t' : Table α) :
